@@ -38,7 +38,7 @@ SmoothFrom(xs, i, co, xprev, f1, f2, acc) ==
 (* zero initial filter state, x_0 given *)
 Smooth(xsF, co, x0) == SmoothFrom(xsF, 1, co, x0, FZero, FZero, <<>>)
 
-ToFSeq(xs) == [i \in 1..Len(xs) |-> FFromQ(xs[i])]
+ToFSeq(xs) == Force([i \in 1..Len(xs) |-> FFromQ(xs[i])])
 
 SuperSmootherF(N, ang, xs) == Last(Smooth(ToFSeq(xs), SSCoef(N, ang), FZero))
 SuperSmoother_Def(N, xs) ==
@@ -122,11 +122,11 @@ FlexSmooth(N, xs) == LET xf == ToFSeq(xs) IN Smooth(xf, FlexCoef(N), xf[1])
 (* d_j for every step j, given the smoother outputs fs *)
 TrendD(N, fs, j) ==
     LET n == IF j < N THEN j ELSE N IN
-    FDivInt(FSumFrom([i \in 1..n |-> FSub(fs[j], fs[j - i + 1])], 1), N)
+    FDivInt(FSumFrom(Force([i \in 1..n |-> FSub(fs[j], fs[j - i + 1])]), 1), N)
 ReflexD(N, fs, j) ==
     LET n == IF j < N THEN j ELSE N
         slope == FDivInt(FSub(fs[j - n + 1], fs[j]), N)
-    IN  FDivInt(FSumFrom([i \in 1..n |-> FSub(FAdd(fs[j], FMulInt(i - 1, slope)), fs[j - i + 1])], 1), N)
+    IN  FDivInt(FSumFrom(Force([i \in 1..n |-> FSub(FAdd(fs[j], FMulInt(i - 1, slope)), fs[j - i + 1])]), 1), N)
 (* leaky mean square ms_j = 0.04 d_j^2 + 0.96 ms_(j-1) *)
 RECURSIVE MsFrom(_, _, _)
 MsFrom(ds, j, ms) == IF j > Len(ds) THEN ms
@@ -139,14 +139,14 @@ FlexOut(ds) ==
 TrendFlex_Def(N, xs) ==
     IF Len(xs) = 0 \/ N < 3 THEN RAny
     ELSE LET fs == FlexSmooth(N, xs)
-             ds == [j \in 1..Len(fs) |-> TrendD(N, fs, j)]
+             ds == Force([j \in 1..Len(fs) |-> TrendD(N, fs, j)])
              o  == FlexOut(ds)
          IN  IF o[1] THEN RF(o[2]) ELSE RQ(QZero)
 ReFlex_Def(N, xs) ==
     IF N < 3 THEN RAny
     ELSE IF Len(xs) = 0 THEN RNone
     ELSE LET fs == FlexSmooth(N, xs)
-             ds == [j \in 1..Len(fs) |-> ReflexD(N, fs, j)]
+             ds == Force([j \in 1..Len(fs) |-> ReflexD(N, fs, j)])
              o  == FlexOut(ds)
          IN  IF o[1] THEN RF(o[2]) ELSE RNone
 
